@@ -62,7 +62,7 @@ CHECKS = {
         design='DESIGN.md 5 C13',
     ),
     'C08': dict(
-        text='Proof expressions generated from a grammar over the raw rules (prop1-3, axioms, instantiate and dynamic_inst with empty, identity, repeated and out-of-order bindings and partially instantiated values, modus ponens with the instantiated proof on either side, generalization, quantifier) with symbolic ids, plus library lemmas, are run through ten interpreter stacks; all must succeed with equal conclusions equal to the advertised one, or all must raise.',
+        text='Proof expressions generated from a grammar over the raw rules (prop1-3, axioms, instantiate and dynamic_inst with empty, identity, repeated and out-of-order bindings and partially instantiated values, modus ponens with the instantiated proof on either side, generalization, quantifier) with symbolic ids, plus library lemmas, are run through fourteen interpreter stacks (plain, transformer stacks, the Counting -> finalize -> Memoizing pipeline of ProofExp.serialize(optimize=True), Memoizing over every pattern seen); all must succeed with equal conclusions equal to the advertised one, or all must raise.',
         note='Trusted: z3, symx, vf/oracle.py expansion for comparing conclusions. Bounds: expression depth <= 1 (quick) / 2 (thorough); lemma runs use concrete ids (a lemma costs seconds across the stacks) and are enumeration, not solver results.',
         design='DESIGN.md 5 C08',
     ),
@@ -89,8 +89,8 @@ CHECKS = {
         technique='direct SMT encoding of the kernel from its Python AST (z3, linear integer arithmetic) + bounded exhaustive execution of the real _import_proof with nondeterministic set iteration order',
     ),
     'C18': dict(
-        text='Selected repo modules (proof, interpreters, counting/optimising interpreters, Metamath converter and translator) are loaded from their current source through an AST rewrite that routes every iteration site over a set/frozenset through a hook; the hook picks the iteration order by forking (all n! orders for <= 4 elements at up to two deviating iteration events per run; globally consistent re-orderings - reversed, three pseudo-hash orders - for generated small theories). The six output streams must equal those under the natural order on every path. "What was serialised before" is enumerated exhaustively over a menu (incl. two modules with the same theory and different proofs) with up to two earlier serialisations, each sequence in a fresh child process, compared with the target serialised alone.',
-        note='Trusted: the rewrite (iteration sites: for, comprehensions, list/tuple/sorted/min/max/enumerate/zip/iter/join arguments), Python dict order being insertion order. Not a solver query: bounded exhaustive exploration of orders with the symx engine; no sampling of hash seeds. Bounds: <= 2 deviating iteration events; sets > 4 elements in three orders; histories <= 2 over a 4-module menu.',
+        text='Selected repo modules (proof, interpreters, counting/optimising interpreters, Metamath converter and translator) are loaded from their current source through an AST rewrite that routes every iteration site over a set/frozenset through a hook; the hook picks the iteration order by forking (all n! orders for <= 4 elements at up to two deviating iteration events per run; globally consistent re-orderings - reversed, three pseudo-hash orders - for generated small chain theories and generated multi-claim reflexivity theories with frequent memoisation-score ties). The six output streams must equal those under the natural order on every path. "What was serialised before" is enumerated exhaustively over a menu (incl. two modules with the same theory and different proofs, and two modules with equal stack items and different notation tables) with up to two earlier serialisations, each sequence in a fresh child process, compared with the target serialised alone.',
+        note='Trusted: the rewrite (iteration sites: for, comprehensions, list/tuple/sorted/min/max/enumerate/zip/iter/join arguments), Python dict order being insertion order. Not a solver query: bounded exhaustive exploration of orders with the symx engine; no sampling of hash seeds. Bounds: <= 2 deviating iteration events; sets > 4 elements in three orders; histories <= 2 over a 6-module menu.',
         design='DESIGN.md 5 C18',
         technique='bounded exhaustive exploration (symx forking) of set iteration orders injected by an import-time AST rewrite; exhaustive history enumeration in fresh processes',
     ),
